@@ -1240,7 +1240,7 @@ func (w *World) do1(a map[string]any, wait func()) (obs []Obs, retry bool, err e
 		m := stun.MustBuild(txidSetter(w.curTxid), stun.BindingRequest)
 		w.sendFromClient(c, m.Raw)
 	case "Allocate":
-		w.curTxid = w.txid(c + "/" + a["tx"].(string))
+		w.curTxid = w.txid(a["tx"].(string)) // (the same id whichever client uses the name: 5-tuples share transaction ids)
 		attrs := []stun.Setter{proto.RequestedTransport{Protocol: proto.ProtoUDP}}
 		if lr := toInt(a["lr"]); lr >= 0 {
 			attrs = append(attrs, w.lifeAttr(lr))
@@ -1261,7 +1261,7 @@ func (w *World) do1(a map[string]any, wait func()) (obs []Obs, retry bool, err e
 		}
 		w.sendFromClient(c, w.authed(u, w.curTxid, stun.MethodAllocate, attrs...))
 	case "AllocateNoPort":
-		w.curTxid = w.txid(c + "/" + a["tx"].(string))
+		w.curTxid = w.txid(a["tx"].(string)) // (the same id whichever client uses the name: 5-tuples share transaction ids)
 		w.gen.mu.Lock()
 		w.gen.failNext = 1
 		w.gen.mu.Unlock()
@@ -1276,7 +1276,7 @@ func (w *World) do1(a map[string]any, wait func()) (obs []Obs, retry bool, err e
 		if err := w.mintNonce(wait); err != nil {
 			return nil, false, err
 		}
-		w.curTxid = w.txid(c + "/" + a["tx"].(string))
+		w.curTxid = w.txid(a["tx"].(string)) // (the same id whichever client uses the name: 5-tuples share transaction ids)
 		lis := w.listen4
 		if w.listenAddr[c] == w.listen6.addr {
 			lis = w.listen6
@@ -1364,7 +1364,7 @@ func (w *World) do1(a map[string]any, wait func()) (obs []Obs, retry bool, err e
 	case "BadCred":
 		if tx, _ := a["tx"].(string); tx != "" {
 			// the transaction id of the Allocate that created the allocation, once more (BadCredReplay)
-			w.curTxid = w.txid(c + "/" + tx)
+			w.curTxid = w.txid(tx)
 		}
 		raw, err := w.badCred(c, a["m"].(string), a["k"].(string))
 		if err != nil {
